@@ -9,6 +9,7 @@ import (
 	"strings"
 	"time"
 
+	"github.com/TarsCloud/TarsGo/tars"
 	"github.com/TarsCloud/TarsGo/tars/util/rogger"
 	"verif/common"
 	"verif/e1"
@@ -40,9 +41,14 @@ type cfg struct {
 	Raw        bool // WriteLog (exact bytes) instead of Infof
 	TwoWriters bool // second logger object with its own writer
 	QueueCap   int  // capacity of the log queue (0: the package's 10000)
+	Panics     int  // >0: instead of calling FlushLogger, this many goroutines log one entry each and panic under tars.CheckPanic
+	Gap        int  // ms between the panics
 }
 
 func (c cfg) name() string {
+	if c.Panics > 0 {
+		return fmt.Sprintf("CheckPanic panics=%d gap=%dms G=%d E=%d pre=%d raw=%v cap=%d", c.Panics, c.Gap, c.G, c.E, c.Pre, c.Raw, c.QueueCap)
+	}
 	return fmt.Sprintf("rogger G=%d E=%d pre=%d late=%d raw=%v two=%v cap=%d", c.G, c.E, c.Pre, c.Late, c.Raw, c.TwoWriters, c.QueueCap)
 }
 
@@ -51,11 +57,20 @@ func scenario(c cfg) *vm.Scenario {
 	var required []string // messages whose logging call returned before FlushLogger was called
 	var flushStart, flushEnd int64
 	var snapshot []string
+	// panic scenarios: executions are serialised, so a plain counter orders "logging call returned"
+	// and "a goroutine panicked" (nothing can run between panic() and the recover in CheckPanic)
+	var seq, firstPanic int
+	type stamped struct {
+		msg string
+		at  int
+	}
+	var logged []stamped
 	sc := &vm.Scenario{Name: c.name()}
 	sc.Reset = func() {
 		w1, w2 = &recWriter{prefix: !c.Raw}, &recWriter{prefix: !c.Raw}
 		required = nil
 		snapshot = nil
+		seq, firstPanic, logged = 0, 0, nil
 	}
 	sc.Main = func() {
 		rogger.VerifResetCap(c.QueueCap)
@@ -99,6 +114,33 @@ func scenario(c cfg) *vm.Scenario {
 		for g := 0; g < c.G; g++ {
 			vm.Recv(done)
 		}
+		if c.Panics > 0 {
+			for _, m := range required {
+				seq++
+				logged = append(logged, stamped{m, seq})
+			}
+			for p := 0; p < c.Panics; p++ {
+				p := p
+				vm.GoNamed("panicker", func() {
+					defer tars.CheckPanic()
+					if p > 0 && c.Gap > 0 {
+						vm.Sleep(int64(p*c.Gap) * int64(time.Millisecond))
+					}
+					m := fmt.Sprintf("<p%d-e0>", p)
+					emit(lg, m)
+					seq++
+					logged = append(logged, stamped{m, seq})
+					seq++
+					if firstPanic == 0 {
+						firstPanic = seq
+					}
+					vm.Log("panic %d", p)
+					panic(fmt.Sprint("boom ", p))
+				})
+			}
+			vm.Sleep(int64(10 * time.Second)) // the process must have exited long before
+			return
+		}
 		if c.Late > 0 {
 			vm.GoNamed("late", func() {
 				for e := 0; e < c.Late; e++ {
@@ -123,7 +165,35 @@ func scenario(c cfg) *vm.Scenario {
 		case vm.StStepLimit:
 			msgs = append(msgs, "livelock-or-step-limit")
 		}
-		if r.Status == vm.StOK {
+		if c.Panics > 0 {
+			if r.Status == vm.StOK {
+				msgs = append(msgs, "panic-did-not-end-the-process")
+			}
+			if r.Status == vm.StExit {
+				lost := 0
+				for _, l := range logged {
+					if l.at > firstPanic {
+						continue // logged after the first goroutine had panicked: no flush request is known to follow it
+					}
+					n := 0
+					for _, rec := range w1.recs {
+						if strings.Contains(rec, l.msg) {
+							n++
+						}
+					}
+					if n == 0 {
+						lost++
+					}
+					if n > 1 {
+						msgs = append(msgs, "entry-written-more-than-once")
+					}
+				}
+				if lost > 0 {
+					msgs = append(msgs, "entry-logged-before-panic-exit-not-written")
+				}
+			}
+		}
+		if r.Status == vm.StOK && c.Panics == 0 {
 			if flushEnd-flushStart >= int64(time.Second) {
 				msgs = append(msgs, "flush-ran-into-its-timeout")
 			}
@@ -212,7 +282,15 @@ func main() {
 		add(cfg{G: 1, E: 3, Raw: raw, QueueCap: 1}, -1, b)
 		add(cfg{G: 2, E: 2, Raw: raw, QueueCap: 1}, -1, b)
 		add(cfg{G: 1, E: 3, Pre: 1, Raw: raw, QueueCap: 2}, -1, b)
+		// panic-triggered exit: CheckPanic dumps, flushes, exits; one panic, and two overlapping ones
+		add(cfg{Panics: 1, Pre: 2, Raw: raw}, -1, b)
+		add(cfg{Panics: 1, G: 1, E: 2, Raw: raw}, -1, b)
+		add(cfg{Panics: 2, Pre: 2, Raw: raw}, -1, b)
+		add(cfg{Panics: 2, Pre: 3, Gap: 5, Raw: raw, QueueCap: 2}, -1, b)
+		add(cfg{Panics: 2, Pre: 1, Gap: 10, Raw: raw}, -1, b)
 		if run.Thorough() {
+			add(cfg{Panics: 3, Pre: 2, Gap: 5, Raw: raw}, -1, b)
+			add(cfg{Panics: 2, G: 2, E: 1, Gap: 10, Raw: raw}, -1, b)
 			add(cfg{G: 2, E: 3, Raw: raw}, -1, b)
 			add(cfg{G: 2, E: 2, Pre: 2, Raw: raw}, -1, b)
 			add(cfg{G: 2, E: 2, Late: 2, Raw: raw}, -1, b)
@@ -224,5 +302,6 @@ func main() {
 		"interleavings are explored at channel, mutex and context operations of the instrumented rogger package; both outcomes of a select with several ready cases are explored",
 		"the flush timeout is judged on the virtual clock (exact)",
 		"entries still being logged concurrently with the flush request are not required to be written",
+		"panic scenarios: tars.CheckPanic on the instrumented tars package, os.Exit ends the execution; debug.DumpStack is replaced by a 10 ms virtual-time stand-in (harness/debugstub); required = entries whose logging call returned before the first goroutine panicked",
 	})
 }
